@@ -36,8 +36,8 @@ there (C08:M3) while the C07 check, which observes `Scanner::scan` / `simple_sca
 round 3 need not be caught by the machinery as committed. At the end of the build round every one of the changes that
 had needed strengthening (30) and a random selection of the others (45) - 75 of the then 139 - were applied once more in
 scratch worktrees and the final quick check of their property was run against them (`seeded_regression_final.txt`): 75 of
-75 reported a violation. In the following session six more of the remaining 64 were re-checked the same way (C07, C10 x2,
-C11 x3: 6 of 6 reported a violation; appended to the same file) before the machine was needed for round 17. (The other 58
+75 reported a violation. In the following session 26 more of the remaining 64 were re-checked the same way (C07, C10-C19, against the checks as
+they stood around round 17: 26 of 26 reported a violation; appended to the same file, 101 lines in all). (The other 38
 were last checked in the round in which they were written.)
 
 **Round 17** (six sub-agents: C04 C05 C08 C14 C15 C18). Caught as the checks stood: C04, C14, C18. Missed and the check
